@@ -67,9 +67,9 @@ Theorem c14_old_low_bits_periodic :
   forall (k n : nat) (st : Z), (k <= 64)%nat -> (forall s, snd (next_raw_old s) = lcg_step s /\ fst (next_raw_old s) = lcg_step s) /\ state_after (2 ^ k + n) st mod 2 ^ Z.of_nat k = state_after n st mod 2 ^ Z.of_nat k.
 Proof. exact old_low_bits_periodic. Qed.
 
-(** (d) PARTIAL: with the concrete generator every one of the 24 / 120 / 720 orders of a 4/5/6-slice is produced by an explicit seed (Spec.seeds4/5/6, found by the executor's search, checked here by computation). Missing: near-equal frequencies and aperiodicity of small-range streams are statistical; they are measured by the search in checks/c14.py (extra), not proved *)
+(** (d) PARTIAL: with the concrete generator every order of a slice of length <= 6 (1, 1, 2, 6, 24, 120, 720 orders) is produced by an explicit seed (Spec.seeds4/5/6, found by the executor's search, checked here by computation). Missing: near-equal frequencies and aperiodicity of small-range streams are statistical; they are measured by the search in checks/c14.py (extra), not proved *)
 Theorem c14_fairness_partial :
-  forall (n : N) (p : list Z), (n = 4 \/ n = 5 \/ n = 6)%N -> Permutation p (zseq n) -> exists seed, In seed (seeds_for n) /\ 0 <= seed < 2 ^ 64 /\ shuffle_rng seed (zseq n) = Some p.
+  forall (n : N) (p : list Z), (n <= 6)%N -> Permutation p (zseq n) -> exists seed, In seed (seeds_for n) /\ 0 <= seed < 2 ^ 64 /\ shuffle_rng seed (zseq n) = Some p.
 Proof. exact fairness_partial. Qed.
 
 (** (b) for every start < end in the IEEE order (this excludes NaN bounds; infinite bounds are allowed) and EVERY raw word the draw exists and start <= x < end, in the comparison [SFcompare] that the Rust code itself uses; no axioms *)
